@@ -146,6 +146,8 @@ class InterpCore:
             raise _Return(self.ev(s.value, env, run) if s.value is not None else None)
         elif k is ast.Assign:
             v = self.ev(s.value, env, run)
+            if isinstance(s.value, ast.GeneratorExp) and isinstance(v, (tuple, Sym)):
+                v = GenV(v)  # a generator bound to a name has state: next() advances it, a second consumer finds it empty
             for t in s.targets:
                 self.assign(t, v, env, run)
         elif k is ast.AnnAssign:
@@ -266,6 +268,22 @@ class InterpCore:
         if isinstance(v, Sym):
             return self.sym_unpack(v, n, run, node)
         self.limit(f"unpack of {v!r}", node)
+
+    def gen_rest(self, g, consume=True):
+        """What a named generator still has to give (and, when consumed, nothing afterwards)."""
+        if g.exhausted:
+            return ()
+        src = g.src
+        if isinstance(src, tuple):
+            rest = src[g.taken:]
+        elif g.taken == 0:
+            rest = src
+        else:
+            info = {k: v for k, v in src.info.items() if k in ("elem_values", "elem")}
+            rest = Sym(("rest", src.term, g.taken), "tuple", gen_rest=g.taken, whole=src, **info)
+        if consume:
+            g.exhausted = True
+        return rest
 
     def exec_for(self, s, env, run):
         it = self.ev(s.iter, env, run)
@@ -606,6 +624,11 @@ class InterpCore:
             return self.call_function(fn, args, kwargs, run, node)
         if isinstance(fn, BoundV):
             return self.call(fn.func, [fn.self_] + list(args), kwargs, run, node, higher_order)
+        if isinstance(fn, (LibFn, LibClass)) and any(isinstance(a, GenV) for a in list(args) + list(kwargs.values())) and \
+                not (isinstance(fn, LibFn) and fn.name in ("next", "iter", "id", "isinstance", "callable")):
+            # a library consumer drains the generator
+            args = [self.gen_rest(a) if isinstance(a, GenV) else a for a in args]
+            kwargs = {k: (self.gen_rest(a) if isinstance(a, GenV) else a) for k, a in kwargs.items()}
         if isinstance(fn, LibFn):
             return self.call_lib(fn.name, args, kwargs, run, node)
         if isinstance(fn, ClassV):
@@ -1301,6 +1324,8 @@ class InterpCore:
 
     def iterate(self, v, run, node):
         """Concrete list of items, or None when the iterable is symbolic."""
+        if isinstance(v, GenV):
+            v = self.gen_rest(v)
         if isinstance(v, (tuple, list)):
             return list(v)
         if isinstance(v, (str, bytes)):
